@@ -302,7 +302,8 @@ def build_repo_binary(pkg, name, timeout=1500):
 GENERATED = {
     "Gen/Builders.v": [("internal/ctlog/ctlog.go", "computeCacheHash", "gen_ctlog_cache_key"),
                        ("cmd/recompute-cache/recompute-cache.go", "computeCacheHash", "gen_recompute_cache_key"),
-                       ("tile.go", "MerkleTreeLeaf", "gen_merkle_tree_leaf")],
+                       ("tile.go", "MerkleTreeLeaf", "gen_merkle_tree_leaf"),
+                       ("tile.go", "AppendTileLeaf", "gen_append_tile_leaf")],
 }
 
 
